@@ -85,6 +85,11 @@ package cache
 //@     asUpd(c.request).Linux.Resources if isUpd(c.request) && asUpd(c.request).Linux != nil && asUpd(c.request).Linux.Resources == nil,
 //@     ctrRes(c).RdtClass if ctrHasRes(c), reqRes(c).RdtClass if reqHasRes(c), ctrRes(c).BlockioClass if ctrHasRes(c), reqRes(c).BlockioClass if reqHasRes(c)
 //@   ensures[C14] cwf(c) && reqOK(c)
+//@   ensures[C05] old(kindOK(c)) ==> kindOK(c)
+
+// C05: the kind of a pending request created while the container is being set up matches the container's state
+// (an adjustment exactly for a container in state Creating) - the creation adjustment is what CreateContainer returns.
+//@ pure kindOK(c *container) bool = c.request == nil || (isAdj(c.request) <==> c.Ctr.State == ContainerStateCreating)
 
 //@ func (*cache).createContainer safety
 //@   requires cacheOK(cch) && nriCtr != nil && optsOK(opts)
@@ -95,10 +100,11 @@ package cache
 //@   ensures[C14] (result0 != nil) <==> (result1 == nil)
 //@   ensures[C14] (result1 == nil) <==> (nriCtr.GetPodSandboxId() in cch.Pods)
 //@   ensures[C14] result1 == nil ==> fresh(result0) && result0.Ctr == nriCtr && result0.cache == cch
+//@   ensures[C05] result1 == nil ==> kindOK(result0) && reqOK(result0)
 //@ loop 0 in (*cache).createContainer at "range opts"
 //@   modifies nriCtr.State
 //@   invariant[C14] -1 <= rangeindex && rangeindex < len(opts)
-//@   invariant[C14] cacheOK(cch) && fresh(c) && c.Ctr == nriCtr && c.cache == cch && c.request == nil && c.pending == nil
+//@   invariant[C14,C05] cacheOK(cch) && fresh(c) && c.Ctr == nriCtr && c.cache == cch && c.request == nil && c.pending == nil
 
 // ---- per-container data directory (file system only) -------------------------------------------------------
 // ContainerDirectory is verified; create/removeContainerDirectory call it and then only the file system
